@@ -1,6 +1,6 @@
 /-
   Props/C10.lean — property theorems for C10 (loops compute the sequential fixed point).
-  Models: Model/Leader.lean (IterationLeader), Model/StateLock.lean (IterationStateLock + the Start's
+  Models: Model/Leader.lean (IterationLeader, IterationEnd, Replay, Iterate), Model/StateLock.lean (IterationStateLock + the Start's
   generation wait), Model/LoopProto.lean (the distributed protocol of one loop; the nested instance),
   Model/SeqLoop.lean (sequential reference semantics). Helper lemmas: Lemmas/Loop.lean.
 -/
@@ -356,3 +356,226 @@ example :
       (fun xs => [xs.take 1, xs.drop 1]) [1, 2, 3] = 126 := by decide
 
 end Noir.SeqLoop
+
+namespace Noir.LoopProto.Nested
+
+/-! ## Nested loops: what does hold -/
+
+/-- **`nested_single_host_no_stale`.** On ONE host (e.g. `RuntimeConfig::local(n)`) no schedule of the
+    two-level instance reaches a stale read of the outer state, whatever the inner body does: all
+    heads share the host's outer state cell and data of outer round `k` only exists after the host's
+    outer head consumed feedback `k`. (This is why F9 needs at least two hosts.) -/
+theorem nested_single_host_no_stale (I : Nat) (sched : List Act) (s : NSt)
+    (h : exec I false (ninit 1) sched = some s) : anyStale s = false :=
+  good_no_stale s (good_exec I false sched (ninit 1) s h (good_init 1) (Or.inr (by simp [ninit])))
+
+/-- **`nested_no_inner_shuffle_no_stale`.** For any number of hosts: if the inner body has no shuffle
+    (every inner-body replica only receives the data of its own host's head: `bodyPass h h`), no schedule
+    reaches a stale read of the outer state. -/
+theorem nested_no_inner_shuffle_no_stale (I H : Nat) (sched : List Act) (s : NSt)
+    (hloc : ∀ a ∈ sched, localOnly a = true)
+    (h : exec I false (ninit H) sched = some s) : anyStale s = false :=
+  good_no_stale s (good_exec I false sched (ninit H) s h (good_init H) (Or.inl hloc))
+
+/-- non-vacuity of the two statements: a two-round schedule on one host that is executable -/
+example : (exec 1 false (ninit 1)
+    [.bodyPass 0 0, .headFar 0, .bodyFar 0, .innerBroadcast, .outerBroadcast, .headRecvInner 0,
+     .headRecvOuter 0, .bodyPass 0 0]).map anyStale = some false := by decide
+
+end Noir.LoopProto.Nested
+
+namespace Noir.Replay
+
+variable {α : Type}
+
+/-! ## The loop heads -/
+
+/-- **C10 `replay_refeeds_input`.** In the first round `Replay` forwards and records its input; in
+    every later round (`(Continue, _)` from the leader) it hands the body exactly the recorded content
+    again — the same elements in the same order, ending with the `FlushAndRestart` — and is unchanged. -/
+theorem replay_refeeds_input (xs : List α) :
+    run (init : St α) (xs.map (fun x => Ev.input (Elem.item x)) ++ [.input .far]) =
+      (⟨xs.map Elem.item ++ [.far], true⟩, xs.map (fun x => Act.emit (Elem.item x)) ++ [.lock, .emit .far]) ∧
+    ∀ st : St α, st.inputFinished = true →
+      (step st (.state true)).1 = st ∧ emitted (step st (.state true)).2 = st.content := by
+  constructor
+  · have h1 := run_input xs (init : St α) rfl
+    have : ∀ (st : St α) (es fs : List (Ev α)), run st (es ++ fs) =
+        ((run (run st es).1 fs).1, (run st es).2 ++ (run (run st es).1 fs).2) := by
+      intro st es
+      induction es generalizing st with
+      | nil => intro fs; simp [run]
+      | cons e es ih => intro fs; simp only [List.cons_append, run]; rw [ih]; simp [List.append_assoc]
+    rw [this, h1]
+    simp [run, step, init]
+  · intro st h
+    constructor
+    · simp [step, h]
+    · simp only [step, h, Bool.not_true, Bool.false_eq_true, if_false, if_true]
+      show emitted (Act.sync :: acts st.content) = st.content
+      have := emitted_acts st.content
+      simpa [emitted] using this
+
+/-- when the loop finishes `Replay` forgets the content and waits for input again: it is in its
+    initial state (replay.rs:192-196), ready for the next outer round -/
+theorem replay_cleared_on_finish (st : St α) (h : st.inputFinished = true) :
+    step st (.state false) = (init, [.sync]) := by
+  simp [step, h, init]
+
+end Noir.Replay
+
+namespace Noir.Iterate
+
+variable {α : Type}
+
+/-- **C10 `iterate_feeds_back`.** Between two rounds (`mid`: input ended, everything handed out), once
+    the complete output `F` of round k (ending with its `FlushAndRestart`) has come back and the
+    leader said `Continue`, `Iterate` hands the body exactly `F` — round k's output is round k+1's
+    input —, sends nothing to the output, and is between two rounds again. The leader's message may
+    arrive before or after the feedback. -/
+theorem iterate_feeds_back (F : List (Elem α)) (hF : (F.getLast?.map Elem.isFar).getD false = true) :
+    (∀ evs, evs = [Ev.feedback F, .state true] ∨ evs = [Ev.state true, .feedback F] →
+      (run mid evs).1 = mid ∧ emitted (run mid evs).2 = F ∧ outputs (run mid evs).2 = []) := by
+  intro evs h
+  have key : run (mid : St α) evs = (mid, .sync :: acts F) := by
+    rcases h with h | h <;> subst h
+    · simpa using round_feedback_then_state F hF true
+    · simpa using round_state_then_feedback F hF true
+  rw [key]
+  refine ⟨rfl, ?_, ?_⟩
+  · have := emitted_acts F; simpa [emitted] using this
+  · have := outputs_acts F; simpa [outputs] using this
+
+/-- **C10 `iterate_emits_last_round`.** When the leader says `Finished`, the complete output `F` of the
+    last round is sent, as one batch, to the output block and NOT handed to the body again; `Iterate`
+    is in its initial state, ready for the next execution of the loop. -/
+theorem iterate_emits_last_round (F : List (Elem α)) (hF : (F.getLast?.map Elem.isFar).getD false = true) :
+    (∀ evs, evs = [Ev.feedback F, .state false] ∨ evs = [Ev.state false, .feedback F] →
+      (run mid evs).1 = init ∧ emitted (run mid evs).2 = [] ∧ outputs (run mid evs).2 = [F]) := by
+  intro evs h
+  have key : run (mid : St α) evs = (init, [.sync, .out F]) := by
+    rcases h with h | h <;> subst h
+    · simpa using round_feedback_then_state F hF false
+    · simpa using round_state_then_feedback F hF false
+  rw [key]
+  simp [emitted, outputs]
+
+/-- non-vacuity: first round (the outside input passes through), one fed-back round, final round -/
+example : (run (init : St Nat) [.input [.item 1, .item 2, .far], .feedback [.item 5], .feedback [.far], .state true,
+      .feedback [.item 9, .far], .state false]).2 =
+    [.emit (.item 1), .emit (.item 2), .lock, .emit .far, .sync, .emit (.item 5), .lock, .emit .far,
+     .sync, .out [.item 9, .far]] := by decide
+
+end Noir.Iterate
+
+namespace Noir.Leader
+
+/-- **`inner_restarts_clean`.** After an execution of a loop has finished, all three parties are back
+    in their initial configuration, so the next outer round runs the inner loop from scratch:
+    the leader (state = initial state, `iteration_index = 0`), `Replay` (content cleared, reading
+    input again) and `Iterate`; the host's lock has gone through whole lock/unlock cycles only, i.e.
+    it is unlocked and its generation is `2·(rounds so far)`, which is exactly the generation the
+    body `Start`s wait for after that many `FlushAndRestart`s. -/
+theorem inner_restarts_clean {σ δ α : Type} (c : Cfg σ δ) (st : St σ) (ds : List δ) (hn : 1 ≤ c.n)
+    (hd : st.done = false) (hm : st.missing = c.n) (hl : ds.length = c.n)
+    (hstop : ((c.cond (ds.foldl c.global st.state)).1 && decide (st.idx + 1 < c.maxIter)) = false)
+    (rst : Replay.St α) (hr : rst.inputFinished = true)
+    (F : List (Elem α)) (hF : (F.getLast?.map Elem.isFar).getD false = true) (rounds : Nat) :
+    (runDeltas c st ds).1 = { Leader.init c with terms := st.terms } ∧
+    (Replay.step rst (.state false)).1 = Replay.init ∧
+    (Iterate.run Iterate.mid [.feedback F, .state false]).1 = Iterate.init ∧
+    StateLock.runOps StateLock.Lock.new ((List.replicate rounds [StateLock.Op.lock, .unlock]).flatten) =
+      some ⟨StateLock.startGeneration rounds⟩ := by
+  refine ⟨(leader_result_once_and_reset c st ds hn hd hm hl hstop).2, ?_, ?_, ?_⟩
+  · rw [Replay.replay_cleared_on_finish rst hr]
+  · exact (Iterate.iterate_emits_last_round F hF _ (Or.inl rfl)).1
+  · have : ∀ (k g : Nat), g % 2 = 0 →
+        StateLock.runOps ⟨g⟩ ((List.replicate k [StateLock.Op.lock, .unlock]).flatten) = some ⟨g + 2 * k⟩ := by
+      intro k
+      induction k with
+      | zero => intro g _; simp [StateLock.runOps]
+      | succ k ih =>
+        intro g hg
+        have h1 : (g + 1) % 2 = 1 := by omega
+        simp only [List.replicate_succ, List.flatten_cons, List.cons_append, List.nil_append,
+          StateLock.runOps, StateLock.Lock.lock, StateLock.Lock.unlock, hg, h1, beq_self_eq_true, if_true]
+        rw [ih (g + 1 + 1) (by omega)]
+        congr 2; omega
+    have := this rounds 0 rfl
+    simpa [StateLock.Lock.new, StateLock.startGeneration] using this
+
+end Noir.Leader
+
+namespace Noir.LoopProto
+
+variable {Host Head Body End σ δ α : Type} [DecidableEq Host] [DecidableEq Head] [DecidableEq Body] [DecidableEq End]
+
+/-! ## Composition: the protocol computes the sequential semantics
+
+`DReachable L D s`: reachable states of the data-carrying refinement of `LoopProto`
+(Model/LoopProto.lean: cells hold values, body replicas record what they read, `IterationEnd`
+replicas send `foldl localFold delta0 (body stateRead part)`, the leader folds in arrival order and
+applies `loop_condition`). `seqS L D k` is the sequential state after `k` rounds
+(`SeqLoop.foldRound` + `loop_condition`). -/
+
+/-- **C10 `loopProto_computes_seq`** (one theorem for "every replica evaluates round k against
+    `S_{k-1}` AND the state is the sequential one"). For a right-commutative `global_fold`, any number
+    of hosts/replicas, every interleaving and all message delays, in every reachable state:
+    * every broadcast `j` the leader has made carries the sequential state `S_j`;
+    * at a round boundary the leader's own state is `S_K`;
+    * a body replica processing data of round `k = fars b + 1` has READ the value `S_{k-1}`;
+    * every host's state cell holds `S_j` for the broadcast `j` it was last written with. -/
+theorem loopProto_computes_seq (L : Layout Host Head Body End) (D : DataCfg Body End σ δ α)
+    (hcomm : ∀ s a b, D.loop.global (D.loop.global s a) b = D.loop.global (D.loop.global s b) a)
+    (r0 : Head) (b0 : Body) (e0 : End)
+    {s : DSt Host Head Body End σ δ} (h : DReachable L D s) :
+    (∀ j, j ≤ s.base.K → s.hist j = seqS L D j) ∧
+    (s.recvd = [] → s.lstate = seqS L D s.base.K) ∧
+    (∀ b, s.base.passed b = true → s.readSt b = seqS L D (s.base.fars b)) ∧
+    (∀ host, s.cell host = seqS L D (s.base.sidx host)) := by
+  have inv := dinv_reachable L D hcomm r0 b0 e0 h
+  have bi := inv_reachable L r0 b0 (dreach_base L D h)
+  refine ⟨inv.hist_seq, ?_, ?_, ?_⟩
+  · intro hr
+    rw [inv.lstate_fold, hr]
+    exact inv.hist_seq _ (Nat.le_refl _)
+  · intro b hp
+    rw [inv.read_hist b hp]
+    have h0 := sidx_eq_fars L e0 bi b hp
+    have h1 := bi.sidx_fb (L.hostOfBody b)
+    have h2 := bi.fb_le_K (L.leaderOf (L.hostOfBody b))
+    exact inv.hist_seq _ (by omega)
+  · intro host
+    rw [inv.cell_hist host]
+    have h1 := bi.sidx_fb host
+    have h2 := bi.fb_le_K (L.leaderOf host)
+    exact inv.hist_seq _ (by omega)
+
+/-- the data refinement refines `LoopProto`: its reachable states project to reachable states, so
+    I1–I3 and `state_read_is_previous_round` apply to them -/
+theorem data_refines_proto (L : Layout Host Head Body End) (D : DataCfg Body End σ δ α)
+    {s : DSt Host Head Body End σ δ} (h : DReachable L D s) : Reachable L s.base :=
+  dreach_base L D h
+
+/-- `seqS` is the state sequence of the sequential reference `SeqLoop.rounds` (`replay`), for any
+    `split` that distributes a round's output over the end replicas the way the replicas produce it -/
+theorem seqS_is_sequential_rounds (L : Layout Host Head Body End) (D : DataCfg Body End σ δ α)
+    (split : List α → List (List α)) (input : List α)
+    (hsplit : ∀ S, split (D.loop.body S input) = L.ends.map fun e => D.loop.body S (D.part (D.bodyOf e)))
+    (k : Nat) (S : σ) (hk : (SeqLoop.states D.loop false split input)[k]? = some S) : S = seqS L D k := by
+  cases k with
+  | zero => simp [SeqLoop.states] at hk; rw [← hk]; rfl
+  | succ k =>
+    simp only [SeqLoop.states, List.getElem?_cons_succ, List.getElem?_map, Option.map_eq_some_iff] at hk
+    obtain ⟨p, hp, rfl⟩ := hk
+    have := rounds_states_eq_seqS L D split input hsplit k (D.loop.maxIter - 1) 0 p hp
+    simpa using this
+
+/-- non-vacuity: one host, one replica of everything, `body S xs = xs.map (· + S)`, sum folds: a
+    reachable state of the data refinement after the first broadcast; it carries `S_1 = 6` -/
+example : seqS (σ := Nat) (δ := Nat) (α := Nat)
+    (⟨id, id, id, fun _ => rfl, [()], by simp, by simp⟩ : Layout Unit Unit Unit Unit)
+    ⟨⟨0, 3, fun S xs => xs.map (· + S), 0, (· + ·), (· + ·), fun s => (true, s)⟩, id, fun _ => [1, 2, 3]⟩ 2 = 30 := by
+  decide
+
+end Noir.LoopProto
